@@ -1,6 +1,7 @@
 //! Per-property checks.
 
 pub mod c06;
+pub mod c10;
 pub mod c16;
 pub mod crashprops;
 
@@ -108,23 +109,34 @@ pub fn run_check(prop: &str, tier: &str) -> i32 {
         }
         "C02" => {
             let s = suites::crash_suites(thorough);
-            let plan = crashprops::CrashPlan { nest: 0, reopen_cycles: 0, sector_tear: true, layout: false };
+            let plan = crashprops::CrashPlan { crash: true, layout_tag: "C10", nest: 0, reopen_cycles: 0, sector_tear: true, layout: false };
             crashprops::crash_check(prop, s, &["C02", "C11"], plan, budget, &mut report);
         }
         "C03" => {
             let s = suites::crash_suites(thorough);
-            let plan = crashprops::CrashPlan { nest: 0, reopen_cycles: 0, sector_tear: true, layout: false };
+            let plan = crashprops::CrashPlan { crash: true, layout_tag: "C10", nest: 0, reopen_cycles: 0, sector_tear: true, layout: false };
             crashprops::crash_check(prop, s, &["C03"], plan, budget, &mut report);
         }
         "C04" => {
             let s = suites::crash_suites(thorough);
-            let plan = crashprops::CrashPlan { nest: if thorough { 2 } else { 1 }, reopen_cycles: if thorough { 2 } else { 1 }, sector_tear: false, layout: false };
+            let plan = crashprops::CrashPlan { crash: true, layout_tag: "C10", nest: if thorough { 2 } else { 1 }, reopen_cycles: if thorough { 2 } else { 1 }, sector_tear: false, layout: false };
             crashprops::crash_check(prop, s, &["C04"], plan, budget, &mut report);
         }
         "C05" => {
+            // (1) deep histories, partition + independent-reader check at every acknowledged flush
+            let mut deep = suites::partition_suites(thorough);
+            let plan = crashprops::CrashPlan { crash: false, layout_tag: "C05", nest: 0, reopen_cycles: 0, sector_tear: false, layout: true };
+            crashprops::crash_check(prop, std::mem::take(&mut deep), &["C05"], plan, budget * 0.5, &mut report);
+            // (2) the same invariants on every store recovered from a crash image
             let s = suites::crash_suites(thorough);
-            let plan = crashprops::CrashPlan { nest: 0, reopen_cycles: 0, sector_tear: false, layout: false };
-            crashprops::crash_check(prop, s, &["C05"], plan, budget, &mut report);
+            let plan = crashprops::CrashPlan { crash: true, layout_tag: "C05", nest: 0, reopen_cycles: 0, sector_tear: false, layout: true };
+            crashprops::crash_check(prop, s, &["C05"], plan, budget * 0.5, &mut report);
+        }
+        "C10" => {
+            let deep = suites::layout_suites(thorough);
+            let plan = crashprops::CrashPlan { crash: false, layout_tag: "C10", nest: 0, reopen_cycles: 0, sector_tear: false, layout: true };
+            crashprops::crash_check(prop, deep, &["C10"], plan, budget, &mut report);
+            c10::run(&mut report);
         }
         "C06" => c06::run(tier, &mut report),
         "C16" => {
@@ -149,7 +161,11 @@ pub fn run_check(prop: &str, tier: &str) -> i32 {
         }
         "C13" => {
             let s = pick(&["mem-core", "mem-limit", "mem-ttl", "ts-mem-limit", "disk-limit", "focus-v3", "focus-v3-ttl", "edge-v1", "disk-v2"], thorough);
-            seq_check(prop, tier, s, &["C13"], budget, &mut report);
+            seq_check(prop, tier, s, &["C13"], budget * 0.6, &mut report);
+            // accounting right after recovery from every crash image
+            let cs: Vec<Suite> = suites::crash_suites(thorough).into_iter().filter(|s| ["crash-core-v3", "crash-small-v3", "crash-ttl-v3"].contains(&s.name.as_str())).collect();
+            let plan = crashprops::CrashPlan { crash: true, layout_tag: "C10", nest: 0, reopen_cycles: 0, sector_tear: false, layout: false };
+            crashprops::crash_check(prop, cs, &["C13"], plan, budget * 0.4, &mut report);
         }
         _ => {
             eprintln!("unknown property {prop}");
